@@ -193,6 +193,17 @@ func init() {
 		Rule:        "rapid: list (0..8) of h=v boxes for the notation round trip (element-wise, order), 0..4 boxes at any zooms for parse/print/field order/voxel-id, one box with |h-v|<=5 for the expansion; indices edge-weighted, half f<0. Sweep: all boxes at zooms<=2; all (h,v) with |h-v|<=5 at extreme indices. Non-trivial: some box has five pairwise distinct components, or f<0, or h!=v.",
 		Assumptions: []string{"IDs are rendered and parsed by the reference independently of the library's object type", "expansion compared with the dyadic-box reference as an exact set (bounded to |h-v|<=5: 1024 outputs)"},
 		Gen:         genC10, Check: checkC10, Classify: classifyC10, Sweep: sweepC10,
+		Related: func(c *CaseC10) []*CaseC10 {
+			var out []*CaseC10
+			e := c.Exp
+			for _, b := range []ref.Box{{H: e.V, X: e.X, Y: e.Y, V: e.H, F: e.F}, {H: e.H + 1, X: e.X, Y: e.Y, V: e.V, F: e.F}, {H: e.H, X: e.X, Y: e.Y, V: e.V + 1, F: e.F}} {
+				d := b.H - b.V
+				if b.Valid() && d <= 5 && d >= -5 {
+					out = append(out, &CaseC10{Any: []ref.Box{b}, Exp: b})
+				}
+			}
+			return out
+		},
 		SweepScopes: func(tier string) []string {
 			return []string{"all boxes at zooms (h,v)<=2 (exhaustive)", "all (h,v) in 0..35 with |h-v|<=5 x 2 extreme boxes"}
 		},
